@@ -8,14 +8,14 @@
 (* part of the state); the implementation model (cells / references) and   *)
 (* the reference run side by side and KeyOk compares, after every call,    *)
 (* what the implementation's cost depends on with what it may depend on.   *)
-(* Impl = "asis" must pass for every method; "inplace" (MPS) and           *)
-(* "dropsfrozen" (PIT) are expected-to-fail variants.  The dumped          *)
+(* Impl = "asis" must pass for every method; "inplace" (MPS),              *)
+(* "dropsfrozen" and "effmatch" (PIT) are expected-to-fail variants.  The dumped          *)
 (* histories are replayed on real PIT / MPS / SuperNet models.             *)
 (***************************************************************************)
 EXTENDS CostDeps
 
 CONSTANTS Method,    \* "pit" | "mps" | "sn"
-          Impl,      \* "asis" | "inplace" | "dropsfrozen"
+          Impl,      \* "asis" | "inplace" | "dropsfrozen" | "effmatch"
           MaxLen
 
 VARIABLES h, r, hist
